@@ -669,7 +669,27 @@ def run(project: Project, rep, tier: str):
     check_norm_uniform_sbvn(project, rep)
     check_bvn_terms(project, rep)
     check_dispatch(project, rep)
-    for rn, n in (("KN-GL", 3), ("KN-REGIME", 2), ("KN-AFF", 3), ("KN-UNITS", 6), ("KN-NORM", 1), ("KN-UNI", 1), ("KN-STALE", 1),
+    # KN-PURE: a CDF is a function of its arguments — the kernels keep no shared mutable state (module-level objects,
+    # tables handed out by a memoised helper and then edited in place): otherwise the second evaluation with the same
+    # arguments differs from the first
+    from .common import own_analysis
+    oa = own_analysis(project)
+    n_k = 0
+    for q_, f_ in sorted(project.functions.items()):
+        if f_.module.name != MOD or f_.parent is not None or not isinstance(f_.node, ast.FunctionDef):
+            continue
+        n_k += 1
+        s_ = oa.summary(q_)
+        leaks = [ev for ev in s_.events if ev.kind == "globalstore" or (
+            ev.kind == "write" and not ev.origin.is_arg and str(ev.origin).startswith(("global:", "default:")))]
+        own_leaks = [ev for ev in leaks if ev.func == q_]
+        for ev in own_leaks[:1]:
+            rep.refuted("KN-PURE", f_, ev.node,
+                        f"{q_} modifies shared state in place ({ev.origin}, {ev.how}): the value returned for the same "
+                        f"arguments changes from call to call", construct=f"{q_}: shared state {ev.origin}")
+    if not any(o["rule"] == "KN-PURE" for o in rep.obligations):
+        rep.discharged("KN-PURE", None, None, f"{n_k} kernel functions: no write to module-level or memoised objects")
+    for rn, n in (("KN-PURE", 1), ("KN-GL", 3), ("KN-REGIME", 2), ("KN-AFF", 3), ("KN-UNITS", 6), ("KN-NORM", 1), ("KN-UNI", 1), ("KN-STALE", 1),
                   ("KN-SBVN", 1), ("KN-DISPATCH", 3)):
         rep.floor(rn, n)
     for t in ("scipy.special.erfc", "numpy.exp", "numpy.arcsin", "numpy.sqrt", "numpy.maximum", "numpy.minimum"):
